@@ -47,6 +47,284 @@ def returned (cb : Callbacks) (calls : List Call) : List Err :=
     | some c => cb (calls.take i) c
     | none => none
 
+end CoreBGP.Props.C17
+
+/-! helper lemmas that mention the definitions above (kept out of the property namespace) -/
+namespace CoreBGP.Lemmas
+open CoreBGP CoreBGP.Model CoreBGP.Props.C17
+
+mutual
+theorem scan_spec : ∀ (e : Err) (f : Found), f.n = none →
+    (e.scan f).n = firstOf .notification (leaves e) ∧
+    ((e.scan f).n = none →
+      (e.scan f).taw = f.taw.or (firstOf .withdraw (leaves e)) ∧
+      (e.scan f).ad = f.ad.or (firstOf .discard (leaves e)) ∧
+      (e.scan f).ue = f.ue.or (firstOf .other (leaves e)))
+  | .notif x, f, h => by simp [Err.scan, leaves, h, firstOf]
+  | .taw _ n, f, h => by
+    cases hf : f.taw <;> simp [Err.scan, leaves, h, hf, firstOf]
+  | .discard _ n, f, h => by
+    cases hf : f.ad <;> simp [Err.scan, leaves, h, hf, firstOf]
+  | .upd n, f, h => by
+    cases hf : f.ue <;> simp [Err.scan, leaves, h, hf, firstOf]
+  | .other, f, h => by simp [Err.scan, leaves, h, firstOf]
+  | .wrap e, f, h => by
+    simp only [Err.scan, leaves]; exact scan_spec e f h
+  | .join es, f, h => by
+    simp only [Err.scan, leaves]; exact scanL_spec es f h
+theorem scanL_spec : ∀ (es : ErrList) (f : Found), f.n = none →
+    (es.scan f).n = firstOf .notification (leavesL es) ∧
+    ((es.scan f).n = none →
+      (es.scan f).taw = f.taw.or (firstOf .withdraw (leavesL es)) ∧
+      (es.scan f).ad = f.ad.or (firstOf .discard (leavesL es)) ∧
+      (es.scan f).ue = f.ue.or (firstOf .other (leavesL es)))
+  | .nil, f, h => by simp [ErrList.scan, leavesL, h, firstOf]
+  | .cons e es, f, h => by
+    have h1 := scan_spec e f h
+    simp only [ErrList.scan, leavesL, firstOf_append]
+    cases hn : (e.scan f).n with
+    | some x =>
+      rw [hn] at h1
+      simp [hn, ← h1.1]
+    | none =>
+      rw [hn] at h1
+      have h2 := scanL_spec es (e.scan f) hn
+      obtain ⟨h1a, h1b⟩ := h1
+      obtain ⟨hb1, hb2, hb3⟩ := h1b rfl
+      simp only [Option.isSome_none, Bool.false_eq_true, if_false, ← h1a, Option.none_or]
+      refine ⟨h2.1, fun h3 => ?_⟩
+      obtain ⟨hc1, hc2, hc3⟩ := h2.2 h3
+      rw [hc1, hc2, hc3, hb1, hb2, hb3]
+      simp [Option.or_assoc]
+end
+
+theorem from_err_aux (e : Err) : updateNotificationFromErr (some e) = some (Spec.chooseNotif (leaves e)) := by
+  have h := scan_spec e {} rfl
+  obtain ⟨h1, h2⟩ := h
+  rw [chooseNotif_eq]
+  unfold updateNotificationFromErr
+  simp only
+  rw [← h1]
+  cases hn : (e.scan {}).n with
+  | some x => simp
+  | none =>
+    obtain ⟨ha, hb, hc⟩ := h2 hn
+    simp only [Option.none_or] at ha hb hc
+    rw [← ha, ← hb, ← hc]
+    cases (e.scan {}).taw <;> cases (e.scan {}).ad <;> cases (e.scan {}).ue <;> simp <;> rfl
+
+theorem nilTail_verdict (b w ab n : Bytes) (h4 : ¬ b.length < 4) (hp : Spec.partition b = some (w, ab, n)) :
+    ((nilTail w ab n).2 = none ↔ (Spec.verdictNil b).cls = .none_) ∧
+    strongest (nilTail w ab n).2 = (Spec.verdictNil b).cls ∧
+    (∀ t, (Spec.verdictNil b).notif = some t →
+      ∃ x, updateNotificationFromErr (nilTail w ab n).2 = some x ∧ (x.code.toNat, x.sub.toNat, x.data) = t) := by
+  simp only [Spec.verdictNil, h4, if_false, hp, nilTail]
+  generalize Spec.parseAttrs ab = p
+  generalize Spec.firstOccurrences p.1 [] = r
+  obtain ⟨as, junk⟩ := p
+  obtain ⟨fo, rep⟩ := r
+  cases rep
+  · simp only [Bool.false_eq_true, if_false]
+    simp only [List.contains_eq_mem, Bool.not_eq_true', decide_eq_false_iff_not, decide_eq_true_eq]
+    by_cases h14 : (14 : UInt8) ∈ List.map (fun x => x.code) fo <;>
+    by_cases h1 : (1 : UInt8) ∈ List.map (fun x => x.code) fo <;>
+    by_cases h2 : (2 : UInt8) ∈ List.map (fun x => x.code) fo <;>
+    by_cases hnn : n = [] <;> by_cases hj : junk = [] <;>
+      simp [h14, h1, h2, hj, hnn, joinErr, totalAttrLenErr, strongest, leaves, leavesL, Spec.Class.rank,
+        updateNotificationFromErr, Err.scan, ErrList.scan, resolveNotif, genericUpdateNotif,
+        Gen.NOTIF_CODE_UPDATE_MESSAGE_ERR]
+  · simp [malformedAttrList, strongest, leaves, leavesL, Spec.Class.rank,
+        updateNotificationFromErr, Err.scan, ErrList.scan, Gen.NOTIF_CODE_UPDATE_MESSAGE_ERR,
+        Gen.NOTIF_SUBCODE_MALFORMED_ATTR_LIST]
+
+/-! ### the returned tree contains the callback errors -/
+
+/-- all nodes of an optional tree -/
+def pre : Option Err → List Err
+  | none => []
+  | some e => preorder e
+
+theorem root_sub (e : Err) : [e].Sublist (preorder e) := by
+  cases e <;> simp [preorder]
+
+theorem toList_sub_pre (o : Option Err) : o.toList.Sublist (pre o) := by
+  cases o with
+  | none => simp [pre]
+  | some e => simpa [pre] using root_sub e
+
+theorem pre_joinErr (a b : Option Err) : (pre a ++ pre b).Sublist (pre (joinErr a b)) := by
+  cases a <;> cases b <;> simp [pre, joinErr, preorder, preorderL]
+
+theorem pre_joinIf (a b : Option Err) :
+    (pre a ++ pre b).Sublist (pre (if b.isSome then joinErr a b else a)) := by
+  cases b with
+  | none => simp [pre]
+  | some e => simpa using pre_joinErr a (some e)
+
+theorem filterMap_congr' {α β : Type} {f g : α → Option β} : ∀ {l : List α},
+    (∀ x ∈ l, f x = g x) → l.filterMap f = l.filterMap g := by
+  intro l
+  induction l with
+  | nil => intro _; rfl
+  | cons a l ih =>
+    intro h
+    simp only [List.filterMap_cons, h a List.mem_cons_self, ih (fun x hx => h x (List.mem_cons_of_mem _ hx))]
+
+theorem returned_nil (cb : Callbacks) : returned cb [] = [] := rfl
+
+theorem returned_snoc (cb : Callbacks) (calls : List Call) (c : Call) :
+    returned cb (calls ++ [c]) = returned cb calls ++ (cb calls c).toList := by
+  unfold returned
+  rw [List.length_append, List.length_singleton, List.range_succ, List.filterMap_append]
+  congr 1
+  · apply filterMap_congr'
+    intro i hi
+    have hlt : i < calls.length := List.mem_range.1 hi
+    rw [List.getElem?_append_left hlt, List.take_append_of_le_length (Nat.le_of_lt hlt)]
+  · simp only [List.filterMap_cons, List.filterMap_nil, List.getElem?_concat_length, List.take_left' rfl]
+    cases cb calls c <;> rfl
+
+/-- the calls and the tree after some steps extend those before by the same callback errors -/
+def SubRes (cb : Callbacks) (calls : List Call) (me : Option Err) (calls' : List Call) (me' : Option Err) : Prop :=
+  ∃ errs, returned cb calls' = returned cb calls ++ errs ∧ (pre me ++ errs).Sublist (pre me')
+
+theorem SubRes.refl_join (cb : Callbacks) (calls : List Call) (me : Option Err) (x : Option Err) :
+    SubRes cb calls me calls (joinErr me x) :=
+  ⟨[], by simp, by
+    simpa using (List.sublist_append_left (pre me) (pre x)).trans (pre_joinErr me x)⟩
+
+theorem SubRes.refl (cb : Callbacks) (calls : List Call) (me : Option Err) : SubRes cb calls me calls me :=
+  ⟨[], by simp, by simp⟩
+
+/-- one callback invocation whose result is joined into the tree -/
+theorem SubRes.step (cb : Callbacks) (calls : List Call) (me : Option Err) (c : Call) :
+    SubRes cb calls me (calls ++ [c]) (match cb calls c with | none => me | some e => joinErr me (some e)) := by
+  refine ⟨(cb calls c).toList, returned_snoc cb calls c, ?_⟩
+  cases h : cb calls c with
+  | none => simp
+  | some e =>
+    exact ((List.Sublist.refl (pre me)).append (toList_sub_pre (some e))).trans (pre_joinErr me (some e))
+
+theorem SubRes.trans {cb : Callbacks} {c1 c2 c3 : List Call} {m1 m2 m3 : Option Err}
+    (h1 : SubRes cb c1 m1 c2 m2) (h2 : SubRes cb c2 m2 c3 m3) : SubRes cb c1 m1 c3 m3 := by
+  obtain ⟨e1, hr1, hs1⟩ := h1
+  obtain ⟨e2, hr2, hs2⟩ := h2
+  refine ⟨e1 ++ e2, by rw [hr2, hr1, List.append_assoc], ?_⟩
+  rw [← List.append_assoc]
+  exact (hs1.append_right e2).trans hs2
+
+def outSt : Sum PAState PAState → PAState
+  | .inl st => st
+  | .inr st => st
+
+theorem loopOn_sub (cb : Callbacks) (junk : Bytes) : ∀ (as : List Spec.Attr) (st : PAState),
+    SubRes cb st.calls st.me (outSt (loopOn cb as junk st)).calls (outSt (loopOn cb as junk st)).me := by
+  intro as
+  induction as with
+  | nil =>
+    intro st
+    unfold loopOn
+    split
+    · exact SubRes.refl _ _ _
+    · exact SubRes.refl_join _ _ _ _
+  | cons a as ih =>
+    intro st
+    unfold loopOn
+    split
+    · split
+      · exact SubRes.refl_join _ _ _ _
+      · exact ih st
+    · simp only
+      have hstep := SubRes.step cb st.calls st.me (attrCall a)
+      split
+      next hnone =>
+        rw [hnone] at hstep
+        exact hstep.trans (ih _)
+      next e hsome =>
+        rw [hsome] at hstep
+        split
+        · exact hstep
+        · exact hstep.trans (ih _)
+
+theorem decodePathAttrs_sub (cb : Callbacks) (calls : List Call) (ab : Bytes) (hasNLRI : Bool) :
+    SubRes cb calls none (decodePathAttrs cb calls ab hasNLRI).1 (decodePathAttrs cb calls ab hasNLRI).2 := by
+  rw [decodePathAttrs_eq]
+  split
+  · exact SubRes.refl _ _ _
+  · have := loopOn_sub cb (Spec.parseAttrs ab).2 (Spec.parseAttrs ab).1 ⟨calls, none, []⟩
+    revert this
+    generalize loopOn cb _ _ _ = r
+    cases r with
+    | inr st' => exact id
+    | inl st' =>
+      intro h
+      simp only [outSt] at h
+      unfold finishAttrs
+      simp only
+      split
+      · split
+        · exact h.trans (SubRes.refl_join _ _ _ _)
+        · exact h
+      · exact h
+
+theorem decodeTail_sub (cb : Callbacks) (w ab n : Bytes) :
+    (returned cb (decodeTail cb w ab n).1).Sublist (pre (decodeTail cb w ab n).2) := by
+  have fin : ∀ {calls me}, SubRes cb [] none calls me → (returned cb calls).Sublist (pre me) := by
+    rintro calls me ⟨errs, h1, h2⟩
+    rw [h1]
+    simpa [pre, returned_nil] using h2
+  have h0 : SubRes cb [] none [Call.wr w] (joinErr none (cb [] (Call.wr w))) := by
+    have := SubRes.step cb [] none (Call.wr w)
+    cases hr : cb [] (Call.wr w) with
+    | none => rw [hr] at this; simpa [joinErr] using this
+    | some e => rw [hr] at this; simpa using this
+  have h1 := decodePathAttrs_sub cb [Call.wr w] ab (decide (n.length > 0))
+  unfold decodeTail
+  simp only
+  generalize decodePathAttrs cb [Call.wr w] ab (decide (n.length > 0)) = r at h1 ⊢
+  obtain ⟨calls', perr⟩ := r
+  simp only at h1 ⊢
+  have h2 : SubRes cb [Call.wr w] (joinErr none (cb [] (Call.wr w))) calls'
+      (if perr.isSome then joinErr (joinErr none (cb [] (Call.wr w))) perr else joinErr none (cb [] (Call.wr w))) := by
+    obtain ⟨errs, hr, hs⟩ := h1
+    refine ⟨errs, hr, ?_⟩
+    simp only [pre, List.nil_append] at hs
+    exact ((List.Sublist.refl _).append hs).trans (pre_joinIf _ _)
+  split
+  · exact fin h0
+  · split
+    · exact fin (h0.trans h2)
+    · apply fin
+      refine (h0.trans h2).trans ?_
+      have := SubRes.step cb calls' (if perr.isSome then joinErr (joinErr none (cb [] (Call.wr w))) perr
+        else joinErr none (cb [] (Call.wr w))) (Call.nlri n)
+      cases hr : cb calls' (Call.nlri n) with
+      | none => rw [hr] at this; simpa using this
+      | some e => rw [hr] at this; simpa using this
+
+theorem decodeUpdate_sub (cb : Callbacks) (b : Bytes) (calls : List Call) (e : Option Err)
+    (h : decodeUpdate cb b = .ok (calls, e)) : (returned cb calls).Sublist (pre e) := by
+  rw [decodeUpdate_eq] at h
+  injection h with h
+  split at h
+  · have : calls = [] := (congrArg Prod.fst h).symm
+    subst this
+    simp [returned_nil]
+  · split at h
+    · have : calls = [] := (congrArg Prod.fst h).symm
+      subst this
+      simp [returned_nil]
+    next w ab n _ =>
+      have h1 : calls = (decodeTail cb w ab n).1 := (congrArg Prod.fst h).symm
+      have h2 : e = (decodeTail cb w ab n).2 := (congrArg Prod.snd h).symm
+      subst h1 h2
+      exact decodeTail_sub cb w ab n
+
+end CoreBGP.Lemmas
+
+namespace CoreBGP.Props.C17
+open CoreBGP CoreBGP.Model
+
 /-- `UpdateNotificationFromErr` maps nil to nil -/
 theorem from_err_nil : updateNotificationFromErr none = none := rfl
 
@@ -55,14 +333,29 @@ theorem from_err_nil : updateNotificationFromErr none = none := rfl
 NOTIFICATION, or the generic UPDATE Message Error (3,0) — for every finite tree built from joins
 and wraps -/
 theorem from_err (e : Err) : updateNotificationFromErr (some e) = some (Spec.chooseNotif (leaves e)) := by
-  sorry
+  exact Lemmas.from_err_aux e
 
 /-- with callbacks that return nil, `Decode` returns nil exactly for the UPDATEs that are
 structurally consistent (both length fields fit, no attribute header or value overruns the
 block, no repeated MP attribute) and carry ORIGIN and AS_PATH whenever they announce routes -/
 theorem nil_iff (cb : Callbacks) (b : Bytes) (hnil : ∀ h c, cb h c = none) :
     (∃ calls, decodeUpdate cb b = .ok (calls, none)) ↔ (Spec.verdictNil b).cls = .none_ := by
-  sorry
+  rw [Lemmas.decodeUpdate_eq]
+  by_cases h4 : b.length < 4
+  · simp [h4, Spec.verdictNil]
+  · simp only [h4, if_false]
+    cases hp : Spec.partition b with
+    | none => simp [Spec.verdictNil, h4, hp, malformedAttrList]
+    | some t =>
+      obtain ⟨w, ab, n⟩ := t
+      simp only [Lemmas.decodeTail_nil cb hnil]
+      rw [← (Lemmas.nilTail_verdict b w ab n h4 hp).1]
+      constructor
+      · rintro ⟨calls, h⟩
+        injection h with h
+        rw [h]
+      · intro h
+        exact ⟨(Lemmas.nilTail w ab n).1, by rw [← h]⟩
 
 /-- … and otherwise the strongest element of the returned tree has the class RFC 7606 prescribes
 and `UpdateNotificationFromErr` yields the fallback NOTIFICATION the property names: (3,0) for a
@@ -74,31 +367,78 @@ theorem class_nil (cb : Callbacks) (b : Bytes) (hnil : ∀ h c, cb h c = none)
     strongest e = (Spec.verdictNil b).cls ∧
     (∀ t, (Spec.verdictNil b).notif = some t →
       ∃ n, updateNotificationFromErr e = some n ∧ (n.code.toNat, n.sub.toNat, n.data) = t) := by
-  sorry
+  rw [Lemmas.decodeUpdate_eq] at h
+  injection h with h
+  by_cases h4 : b.length < 4
+  · simp only [h4, if_true, Prod.mk.injEq] at h
+    obtain ⟨_, rfl⟩ := h
+    simp [Spec.verdictNil, h4, strongest, leaves, Spec.Class.rank, updateNotificationFromErr, Err.scan,
+      genericUpdateNotif, Gen.NOTIF_CODE_UPDATE_MESSAGE_ERR]
+  · simp only [h4, if_false] at h
+    cases hp : Spec.partition b with
+    | none =>
+      simp only [hp, Prod.mk.injEq] at h
+      obtain ⟨_, rfl⟩ := h
+      simp [Spec.verdictNil, h4, hp, strongest, leaves, Spec.Class.rank, updateNotificationFromErr, Err.scan,
+        malformedAttrList, Gen.NOTIF_CODE_UPDATE_MESSAGE_ERR, Gen.NOTIF_SUBCODE_MALFORMED_ATTR_LIST]
+    | some t =>
+      obtain ⟨w, ab, n⟩ := t
+      simp only [hp, Lemmas.decodeTail_nil cb hnil] at h
+      have he : e = (Lemmas.nilTail w ab n).2 := by rw [h]
+      subst he
+      exact (Lemmas.nilTail_verdict b w ab n h4 hp).2
 
 /-- whatever the callbacks do: if any callback returned an error, `Decode` does not return nil -/
 theorem callback_error_not_nil (cb : Callbacks) (b : Bytes) (calls : List Call) (e : Option Err)
     (h : decodeUpdate cb b = .ok (calls, e)) (hr : returned cb calls ≠ []) : e ≠ none := by
-  sorry
+  intro he
+  subst he
+  have := Lemmas.decodeUpdate_sub cb b calls none h
+  simp only [Lemmas.pre, List.sublist_nil] at this
+  exact hr this
 
 /-- the returned tree contains every error the callbacks returned up to the point decoding
 stopped, in order -/
 theorem contains_callback_errors (cb : Callbacks) (b : Bytes) (calls : List Call) (e : Err)
     (h : decodeUpdate cb b = .ok (calls, some e)) :
     List.Sublist (returned cb calls) (preorder e) := by
-  sorry
+  exact Lemmas.decodeUpdate_sub cb b calls (some e) h
 
 /-- a callback error containing a `*Notification` stops decoding: it is the last call made -/
 theorem notification_stops (cb : Callbacks) (b : Bytes) (calls : List Call) (e : Option Err)
     (h : decodeUpdate cb b = .ok (calls, e)) (i : Nat) (hi : i + 1 < calls.length) (c : Call)
     (hc : calls[i]? = some c) : ∀ x, cb (calls.take i) c = some x → x.hasNotif = false := by
-  sorry
+  have hq : Lemmas.QuietButLast cb calls := by
+    rw [Lemmas.decodeUpdate_eq] at h
+    injection h with h
+    split at h
+    · have : calls = [] := (congrArg Prod.fst h).symm
+      subst this
+      simp at hi
+    · split at h
+      · have : calls = [] := (congrArg Prod.fst h).symm
+        subst this
+        simp at hi
+      next w ab n _ =>
+        have : calls = (Lemmas.decodeTail cb w ab n).1 := (congrArg Prod.fst h).symm
+        subst this
+        exact Lemmas.decodeTail_quiet cb w ab n
+  exact fun x hx => hq i c x hi hc hx
 
 /-- an UPDATE that announces routes without ORIGIN or AS_PATH is never answered with nil,
 whatever the callbacks return -/
 theorem missing_mandatory_not_nil (cb : Callbacks) (b : Bytes) (calls : List Call)
     (hv : (Spec.verdictNil b).cls ≠ .none_) : decodeUpdate cb b ≠ .ok (calls, none) := by
-  sorry
+  intro h
+  rw [Lemmas.decodeUpdate_eq] at h
+  injection h with h
+  split at h
+  · cases h
+  · split at h
+    · cases h
+    next w ab n hp =>
+      have h2 : (Lemmas.decodeTail cb w ab n).2 = none := congrArg Prod.snd h
+      exact hv (Lemmas.verdictNil_of_sound b w ab n hp (Lemmas.decodeTail_struct cb w ab n h2))
 
 example : (Spec.verdictNil [0, 0, 0, 0, 8, 10]) = ⟨.withdraw, some (3, 3, [1])⟩ := by decide
 example : (Spec.verdictNil [0, 0, 0, 0]) = ⟨.none_, none⟩ := by decide
